@@ -8,7 +8,7 @@ import json
 
 from checks import common, hist_common, pipe_common
 
-VALS = ['a', 'b', 'c', 'd', 'aa', 'x1', '0', '1', '', '{}', 'NA', 'é', 'a b', 'q,r']
+VALS = ['a', 'b', 'c', 'd', 'aa', 'x1', '0', '1', '', '{}', 'NA', 'é', 'a b', 'q,r', ' ', ' NA', 'NA ']
 
 
 def compose(rng, n):
@@ -34,7 +34,7 @@ def gen(rng, tier):
         pools[1] = list(pools[0])          # the same values in different columns
     rows = [[rng.choice(pools[j]) for j in range(ncols)] for _ in range(n)]
     return {'header': header, 'rows': rows, 'cuts': compose(rng, n), 'threshold': rng.choice([1, 1, 2, 3, 5]),
-            'bound': rng.choice([2, 3, 5, 30000, 30000]), 'missing_value_symbols': rng.choice([',{}', ',{}', 'NA,{}', 'NA', ''])}
+            'bound': rng.choice([2, 3, 5, 30000, 30000]), 'missing_value_symbols': rng.choice([',{}', ',{}', 'NA,{}', 'NA', '', ' ,{}', ' NA,{}', 'NA ,{}'])}
 
 
 def candidates(h):
@@ -149,7 +149,7 @@ PIPE_PROFILE = {
     'more_runs': 0.25,
     'cli_extra': {'rare_value_count_upper_bound': rare_thr,
                   'max_unique_hist_constraint': lambda rng, wl: rng.choice([None, None, None, 2, 5]),
-                  'missing_value_symbols': lambda rng, wl: rng.choice([None, None, 'NA,{}'])},
+                  'missing_value_symbols': lambda rng, wl: rng.choice([None, None, 'NA,{}', ' ,{}', ' NA,{}'])},
 }
 
 RULE = ('hist: history = a row sequence (1-4 columns, 1-60 rows, small value pools incl. empty string / {} / NA / the same values in several columns) cut into an arbitrary composition of batches, '
